@@ -50,6 +50,9 @@ def site_stmt(site, a):
         "seg-target-low": '.define segment { name = "zl" start = $1000 pc = $0000 }\n.segment "zl" {\n* = $0fff\nlda $1234\n}',
         "seg-target-high": '.define segment { name = "zh" start = $1000 pc = $ff00 }\n.segment "zh" {\n* = $1100\nlda $1234\n}',
         "loop-nested": ".loop %s { .loop %s { } }" % (a, a),
+        "segblock-untaken": '.segment "default" {\n.if 0 { nop } else { inx }\n.byte 1\n}\nlda #1\n.byte 2',
+        "segblock-untaken-own": '.define segment { name = "zw" start = $5000 }\n.segment "zw" {\n.if 1 { nop } else { inx }\n}\nldx #nosuch\n.segment "zw" { .if 0 { iny } }\ndex',
+
         "bank-redefine": '.define bank { name = "zd" }\n.define segment { name = "zv" start = $1000 bank = "zd" }\n.segment "zv" { nop }\n.define bank { name = "zd" size = 1 }',
     }
     return t[site]
